@@ -1,11 +1,24 @@
 import ZI.OrderOps
 /-! Driver for the comparison layer (C12): `def` lines introduce operands, `cmp`/`heq`/`sort` lines are answered by
-    the model of the selected twin (`c` = IB_richcompare for interfaces, `py` = the Python reference). -/
+    the model of the selected twin (`c` = IB_richcompare for interfaces, `py` = the Python reference).
+    `def id I name module` is the docless constructor call, `def id D name module` the one with a docstring (both answer
+    the final `__name__`), `def id W target` a transparent proxy of an interface, `def id S eq ord` a constant-answer
+    sentinel; `cmpx` lines are comparisons the generator holds to be outside the property's domain (the model agrees or
+    says `bad`). -/
 namespace Drv.Order
 open ZI.Order
 
 def decodeStr (s : String) : String :=
   if s == "-" then "" else String.ofList ((s.splitOn ",").filterMap fun t => t.toNat?.map Char.ofNat)
+
+def encodeStr (s : String) : String :=
+  if s.isEmpty then "-" else ",".intercalate (s.toList.map fun c => toString c.toNat)
+
+def nameReport (x : Operand) : String :=
+  match x with
+  | .iface _ k => "ok name=" ++ encodeStr k.1
+  | .anon _ _ => "ok name=None"
+  | _ => "ok"
 
 def parseOp : String → Option Cmp
   | "lt" => some .lt | "le" => some .le | "gt" => some .gt | "ge" => some .ge | "eq" => some .eq | "ne" => some .ne
@@ -23,7 +36,19 @@ partial def loop (h : IO.FS.Stream) (e : Env) (method : Cmp → Operand → Oper
   if line.isEmpty then return ()
   match (line.trimAscii.toString.splitOn " ").filter (· != "") with
   | ["reset"] => IO.println "ok"; loop h [] method
-  | ["def", id, "I", n, m] => IO.println "ok"; loop h (e ++ [(id, .iface id.toNat! (decodeStr n, decodeStr m))]) method
+  | ["def", id, "I", n, m] =>
+      let x := mkIface id.toNat! (decodeStr n) (decodeStr m) false
+      IO.println (nameReport x); loop h (e ++ [(id, x)]) method
+  | ["def", id, "D", n, m] =>
+      let x := mkIface id.toNat! (decodeStr n) (decodeStr m) true
+      IO.println (nameReport x); loop h (e ++ [(id, x)]) method
+  | ["def", id, "W", t] =>
+      match e.get t with
+      | some (.iface tid k) => IO.println "ok"; loop h (e ++ [(id, .wrap id.toNat! tid k)]) method
+      | _ => IO.println "bad"; loop h e method
+  | ["def", id, "S", ev, ov] =>
+      let o : Option Bool := if ov == "1" then some true else if ov == "0" then some false else Option.none
+      IO.println "ok"; loop h (e ++ [(id, .sentinel id.toNat! (ev == "1") o)]) method
   | ["def", id, "M", n, m] =>
       -- implementedBy(cls): __name__ = cls.__module__ + '.' + cls.__name__, __module__ = the class attribute of Implements
       IO.println "ok"
@@ -33,12 +58,18 @@ partial def loop (h : IO.FS.Stream) (e : Env) (method : Cmp → Operand → Oper
   | ["cmp", op, a, b] =>
       match parseOp op, e.get a, e.get b with
       | some op, some x, some y =>
-        IO.println (match binop method op x y with | .bool true => "1" | .bool false => "0" | .typeError => "TypeError")
+        IO.println (if outside x y then "outside" else
+          match binop method op x y with | .bool true => "1" | .bool false => "0" | .typeError => "TypeError")
       | _, _, _ => IO.println "bad"
+      loop h e method
+  | ["cmpx", _, a, b] =>
+      match e.get a, e.get b with
+      | some x, some y => IO.println (if outside x y then "outside" else "bad")
+      | _, _ => IO.println "bad"
       loop h e method
   | ["heq", a, b] =>
       match e.get a, e.get b with
-      | some x, some y => IO.println (if hashOf x == hashOf y then "1" else "0")
+      | some x, some y => IO.println (if outside x y then "outside" else if hashOf x == hashOf y then "1" else "0")
       | _, _ => IO.println "bad"
       loop h e method
   | "sort" :: ids =>
